@@ -859,6 +859,32 @@ def zc_fixed_episodes(g, kinds):
             g.emit("zkill %s" % m)
             ep.check()
             ep.dropall()
+        # (d) a view whose image holds a completely FULL chunk stored as a bitmap container (count field 65535), next to others:
+        #     cardinalities, ranks, selects, derived bitmaps, edits
+        ep = A(g)
+        ep.frozen = kind == "frozen"
+        x, m, v = g.fresh("s"), g.fresh("m"), g.fresh("v")
+        ks = [2, 3, 4]
+        g.emit("mkrepr %s cow=0;2:A:1,2;3:B:65536:ffffffffffffffff*1024;4:B:65535:fffffffffffffffe.ffffffffffffffff*1023" % x)
+        ep.define(x, ks)
+        g.emit("%s %s %s" % (zmk, m, x))
+        g.emit("zrd %s %s %s" % (v, kind, m))
+        ep.define(v, ks, [m]); ep.views.add(v)
+        for q in ("card %s" % v, "rank %s %d" % (v, 3 * CH + 70000), "sel %s 65537" % v, "sel %s 131072" % v, "toarr %s" % v, "wf %s" % v):
+            g.emit(q)
+        d = g.fresh("d")
+        g.emit("or %s %s %s" % (d, v, x)); ep.define(d, ks, [m])
+        g.emit("card %s" % d)
+        g.emit("rem %s %d" % (v, 3 * CH + 5)); g.emit("card %s" % v); g.emit("rem %s %d" % (v, 3 * CH + 6)); g.emit("card %s" % v)
+        g.emit("zsame %s" % m)
+        ep.check()
+        g.count("zc:fixed-full-bitmap-chunk")
+        for n_ in list(ep.live):
+            if ep.taint[n_]:
+                g.emit("zdetach %s" % n_)
+        g.emit("zkill %s" % m)
+        ep.check()
+        ep.dropall()
         if kind == "frozen":
             continue
         # (b)
